@@ -3,7 +3,7 @@
 (* Schedule import (src/AEIC/missions/oag.py CSVEntry / OAGDatabase.add,     *)
 (* missions/writable_database.py _add_schedule / _distance_check).           *)
 (* Dates are day numbers of the data year 2019 (day 0 = 1 January, a         *)
-(* Tuesday); times are minutes.  A row creates one flight instance for every *)
+(* Tuesday; negative = 2018, 365.. = 2020); times are minutes.  A row creates one flight instance for every *)
 (* day of its effective range (open ends = start / end of the year) that     *)
 (* falls on one of its operating weekdays; departure and arrival are local   *)
 (* wall-clock times converted with the zone rules of the year.               *)
@@ -67,7 +67,11 @@ F1 == {[BaseRow EXCEPT !.pair = p, !.from = 60, !.to = 92, !.dep = dt, !.arr = a
           p \in 1..Len(Pairs), dt \in Times, at \in Times, ad \in {-1, 0, 1, 2}}
 \* family 2: ranges x weekday sets
 ShortRanges == {<<10, 10>>, <<0, 13>>, <<300, 312>>, <<357, 364>>}
-LongRanges == {<<Open, 20>>, <<340, Open>>, <<Open, Open>>}
+\* explicit dates may lie outside the data year (a schedule that started on 22
+\* November 2018, day -40, or runs until 16 January 2020, day 380): the row
+\* still means every date of its range, and an open end still means the end
+\* of the DATA year.  Days -57..-1 and 365..425 are standard time in all zones.
+LongRanges == {<<Open, 20>>, <<340, Open>>, <<Open, Open>>, <<-40, Open>>, <<Open, 380>>, <<-20, 10>>, <<350, 375>>}
 F2 == {[BaseRow EXCEPT !.from = rg[1], !.to = rg[2], !.days = ds] : rg \in ShortRanges, ds \in DaySets}
       \cup {[BaseRow EXCEPT !.from = rg[1], !.to = rg[2], !.days = ds, !.pair = p] : rg \in LongRanges, ds \in FewDaySets, p \in {2, 3}}
 \* family 3: distance rule and skip reasons
@@ -79,7 +83,8 @@ SInit == row \in Rows
 SNext == FALSE /\ UNCHANGED row
 SSpec == SInit /\ [][SNext]_row
 
-InstancesInRange == \A d \in Kept(row) : d >= 0 /\ d < YearDays /\ Weekday(d) \in row.days
+InstancesInRange == \A d \in Kept(row) : d >= From(row) /\ d <= To(row) /\ Weekday(d) \in row.days
+OpenEndsAreTheDataYear == (row.from = Open => From(row) = 0) /\ (row.to = Open => To(row) = YearDays - 1)
 CountIsKept == Cardinality(Kept(row)) <= Cardinality(Dates(row))
 \* a plausible row with a documented-valid service is never dropped
 NeverDropPlausible == (row.skip = "none" /\ row.pct \in {0, 100, 105}) => Imported(row)
